@@ -307,6 +307,13 @@ func runDec(fast bool, buf []byte, start int, ops []dop, check func(o dop, ob de
 	if _, err := d.Seek(int64(start), io.SeekStart); err != nil {
 		panic("harness: bad start offset")
 	}
+	{
+		all := make([]string, len(ops))
+		for i, o := range ops {
+			all[i] = o.token()
+		}
+		hx.Inflight(fmt.Sprintf("W DEC %s %s %d %s", mode, hx.B(buf), start, strings.Join(all, " ")))
+	}
 	var toks, res []string
 	for _, o := range ops {
 		ob := execDec(d, buf, o)
